@@ -6,6 +6,7 @@ import (
 	"time"
 
 	"github.com/Trendyol/go-dcp/stream/offset"
+	"github.com/Trendyol/go-dcp/vhook"
 	"github.com/couchbase/gocbcore/v10"
 
 	"github.com/Trendyol/go-dcp/wrapper"
@@ -55,6 +56,7 @@ type checkpoint struct {
 }
 
 func (s *checkpoint) Save() {
+	vhook.At("save.prelock")
 	s.saveLock.Lock()
 	defer s.saveLock.Unlock()
 
